@@ -30,6 +30,13 @@ PoolOK(e) ==
 Owners(e) == {i \in 1..Len(e.slots) : /\ e.slots[i].active /\ e.slots[i].auth /\ ~e.slots[i].disabled
                                        /\ e.slots[i].age < 60 /\ e.slots[i].ip = e.ip}
 LookupOK(e) == IF Owners(e) = {} THEN e.ret = 99 ELSE e.ret + 1 \in Owners(e)
+\* e = [srv, mask, slot, told, toldsrv]: what the login reply of a real session told the client: its own tunnel address is
+\* the one of its slot (slot = the address users[u].tun_ip of that session), a host address of the server's subnet other
+\* than the server's; the server address it names is the server's (addresses parsed strictly from the reply text; an
+\* unparsable field arrives as the empty sequence)
+ToldOK(e) == /\ IsAddr(e.told) /\ e.told = e.slot
+             /\ InSubnet(e.told, e.srv, e.mask) /\ e.told # e.srv /\ ~IsNetwork(e.told, e.mask) /\ ~IsBroadcast(e.told, e.mask)
+             /\ e.toldsrv = e.srv
 \* the server refuses netmasks outside 8..30
 RangeOK(e) == e.started <=> (e.mask >= 8 /\ e.mask <= 30)
 
